@@ -381,6 +381,8 @@ func checkC13(c *Ctx) {
 								if len(snippet) > 48 {
 									snippet = snippet[:48]
 								}
+								// the names of emitted locals are not part of the identity either
+								snippet = eraseEmittedLocals(snippet)
 								// the emitter's name is not part of the identity: extracting the statement into a helper does not make it a new finding
 								k := fmt.Sprintf("%s prints %s unquoted into a %s: %s", pkgShort(ri.Pkg), strings.Trim(acc, ".(@"), where, snippet)
 								if unq[k] == nil {
@@ -801,4 +803,43 @@ func unsafeInFormat(u *Unit, marker string) bool {
 		}
 	}
 	return false
+}
+
+var emittedIdentRe = regexp.MustCompile(`[A-Za-z_]\w*`)
+
+var emittedKeywords = map[string]bool{"if": true, "for": true, "func": true, "return": true, "var": true, "const": true, "let": true,
+	"case": true, "switch": true, "range": true, "else": true, "await": true, "async": true, "new": true, "type": true, "struct": true,
+	"map": true, "string": true, "this": true, "delete": true, "nil": true, "null": true, "true": true, "false": true, "throw": true,
+	"export": true, "function": true, "interface": true, "default": true, "break": true, "continue": true, "go": true, "defer": true,
+	"byte": true, "int": true, "bool": true, "error": true, "typeof": true, "in": true, "of": true, "undefined": true}
+
+// eraseEmittedLocals replaces, in the code part of a snippet (ahead of its first string literal or comment
+// text), every lower-case identifier that is neither a keyword, nor a member after '.', nor a called function
+// by "_": `if discRaw, ok := raw["` and `if rv, found := raw["` are the same site.
+func eraseEmittedLocals(sn string) string {
+	end := len(sn)
+	if i := strings.IndexAny(sn, "\"`"); i >= 0 {
+		end = i
+	}
+	if i := strings.Index(sn, "//"); i >= 0 && i < end {
+		end = i
+	}
+	code, rest := sn[:end], sn[end:]
+	var b strings.Builder
+	last := 0
+	for _, m := range emittedIdentRe.FindAllStringIndex(code, -1) {
+		id := code[m[0]:m[1]]
+		keep := emittedKeywords[id] || !(id[0] >= 'a' && id[0] <= 'z' || id[0] == '_') ||
+			(m[0] > 0 && code[m[0]-1] == '.') || (m[1] < len(code) && code[m[1]] == '(') ||
+			(strings.HasPrefix(strings.TrimLeft(code[m[1]:], " "), ":") && !strings.HasPrefix(strings.TrimLeft(code[m[1]:], " "), ":=")) // object key
+		b.WriteString(code[last:m[0]])
+		if keep {
+			b.WriteString(id)
+		} else {
+			b.WriteString("_")
+		}
+		last = m[1]
+	}
+	b.WriteString(code[last:])
+	return b.String() + rest
 }
